@@ -202,11 +202,13 @@ C["wide_apply_mask"] = {
     "spec": "    requires old(dst).len() == %s,\n"
             "    ensures final(dst).len() == old(dst).len(),\n"
             "        %s == 0 ==> final(dst)@ == old(dst)@,\n"
-            "        %s >= 1 ==> forall|j: int| 0 <= j < 64 * %s ==> #[trigger] wbit(final(dst)@, j) == (j < %s && wbit(old(dst)@, j)),\n" % (PN, PW, PW, PN, PW),
+            "        %s >= 1 ==> forall|j: int| 0 <= j < 64 * %s ==> #[trigger] wbit(final(dst)@, j) == (j < %s && wbit(old(dst)@, j)),\n"
+            "        1 <= %s < 64 * %s ==> valp(final(dst)@, %s) as int == (valp(old(dst)@, %s) as int) %% (pow2(%s as nat) as int),\n"
+            "        %s >= 64 * %s ==> valp(final(dst)@, %s) == valp(old(dst)@, %s),\n" % (PN, PW, PW, PN, PW, PW, PN, PN, PN, PW, PW, PN, PN, PN),
     "start": "    let ghost vp_old = dst@;\n    proof { lemma_shl1(); }",
     "loops": {0: "        invariant dst.len() == vp_old.len(),\n"
                  "            forall|k: int| 0 <= k < dst.len() ==> dst@[k] == (if k < i || k < %s { masked_word(vp_old[k], k, %s as int) } else { vp_old[k] }),\n" % (ZS, PW)},
-    "after": {0: "        proof { lemma_masked_bits(vp_old, dst@, %s as int); }" % PW},
+    "after": {0: "        proof { lemma_masked_bits(vp_old, dst@, %s as int); lemma_masked_value(vp_old, dst@, %s as int); }" % (PW, PW)},
     "clause": "requires dst has nb/8 words; ensures for width >= 1: forall j < 64n: wbit(dst',j) == (j < width && wbit(dst,j)); width == 0: unchanged "
               "(the callers' convention `width 0 = no clamp`, aot_c/emit.rs); dst.len unchanged",
 }
@@ -214,14 +216,15 @@ C["wide_fill_ones"] = {
     "attrs": ISO,
     "spec": "    requires old(dst).len() == %s,\n"
             "    ensures final(dst).len() == old(dst).len(),\n"
-            "        forall|j: int| 0 <= j < 64 * %s ==> #[trigger] wbit(final(dst)@, j) == (j < %s),\n" % (PN, PN, PW),
-    "start": "    let ghost vp_old = dst@;\n    proof { lemma_shl1(); }",
+            "        forall|j: int| 0 <= j < 64 * %s ==> #[trigger] wbit(final(dst)@, j) == (j < %s),\n"
+            "        valp(final(dst)@, %s) + 1 == pow2((if %s < 64 * %s { %s as int } else { 64 * %s }) as nat),\n" % (PN, PN, PW, PN, PW, PN, PW, PN),
+    "start": "    let ghost vp_old = dst@;\n    proof { lemma_shl1(); lemma_pow2_64(); }",
     "loops": {0: "        invariant dst.len() == vp_old.len(),\n"
                  "            forall|k: int| 0 <= k < i ==> dst@[k] == 0xffff_ffff_ffff_ffffu64,\n",
               1: "        invariant dst.len() == vp_old.len(),\n"
                  "            forall|k: int| 0 <= k < dst.len() && (k < i || k < %s) ==> dst@[k] == masked_word(0xffff_ffff_ffff_ffffu64, k, %s as int),\n" % (ZS, PW)},
     "before": {1: "        proof { if %s %% 64 > 0 { lemma_and_ones(lowmask((%s %% 64) as u64)); } }" % (PW, PW)},
-    "after": {1: "        proof { lemma_ones_bits(dst@, %s as int); }" % PW},
+    "after": {1: "        proof { lemma_ones_bits(dst@, %s as int); lemma_ones_value(dst@, %s as int); }" % (PW, PW)},
     "clause": "ensures forall j < 64n: wbit(dst',j) == (j < width) (i.e. dst' == 2^min(width,64n) - 1), dst.len unchanged",
 }
 SH_LEN = "old(dst).len() == nws(nb), a.len() == nws(nb),"
